@@ -521,6 +521,58 @@ func runFreshHeadFamily(c *explore.Ctx, a C12Arg, w *MalformedWorld) {
 	// well-formed heads, genuinely signed by the allowed writer, whose link cannot be followed to an entry (it
 	// names a block that is no entry, or a genuine entry under another codec): the fetch of the link fails
 	// inside the replicator. The very next valid announcement must be merged all the same.
+	// one message carrying a head whose signature no longer verifies (payload altered, address recomputed) in
+	// front of a genuine head the victim does not hold yet: whatever happens to this message, the genuine head
+	// announced again on its own must then be merged
+	{
+		id := "fresh:badsig-head-before-genuine-head"
+		run := explore.ReplayOnly == nil && (a.Chunks <= 1 || (len(cases)+7)%a.Chunks == a.Chunk)
+		if explore.ReplayOnly != nil && len(explore.ReplayOnly) > 0 && a.Entry+" "+id == explore.ReplayOnly[0] {
+			run = true
+		}
+		if run {
+			c.JournalCase(len(cases)+7, a.Entry+" "+id)
+			w.probes++
+			_ = writeAny(w.sa, fmt.Sprintf("fresh%d", w.probes))
+			w.probes++
+			_ = writeAny(w.sa, fmt.Sprintf("fresh%d", w.probes))
+			genuine := w.sa.OpLog().Heads().Slice()[0].(*entry.Entry)
+			bad := *genuine
+			bad.Payload = append([]byte{}, genuine.Payload...)
+			if len(bad.Payload) > 0 {
+				bad.Payload[len(bad.Payload)-1] ^= 1
+			}
+			if err := Rehash(w.A.Peer.API(), &bad); err == nil {
+				mixed, _ := json.Marshal(&iface.MessageExchangeHeads{Address: w.addr, Heads: []*entry.Entry{&bad, genuine}})
+				w.FeedMessage(mixed)
+				_ = sim.Quiesce()
+				alone, _ := json.Marshal(&iface.MessageExchangeHeads{Address: w.addr, Heads: []*entry.Entry{genuine}})
+				w.FeedMessage(alone)
+				_ = sim.Quiesce()
+				c.Stats.Executions++
+				c.Stats.Transitions++
+				c.Stats.Checks++
+				c.Stats.State("C12|" + a.Entry + "|" + id)
+				if _, ok := w.sv.OpLog().Get(bad.Hash); ok {
+					c.Stats.Violate(explore.Violation{Property: "C12", Signature: "malformed-input-changed-state:" + a.Entry + ":fresh", Detail: id + ": the head with the broken signature was merged", History: []string{a.Entry + " " + id}})
+					return
+				}
+				missing := 0
+				for _, e := range w.sa.OpLog().GetEntries().Slice() {
+					if _, ok := w.sv.OpLog().Get(e.GetHash()); !ok {
+						missing++
+					} else {
+						w.expected[e.GetHash().String()] = true
+					}
+				}
+				if missing > 0 {
+					c.Stats.Violate(explore.Violation{Property: "C12", Signature: "listener-dead-after-malformed-input:" + a.Entry, Detail: fmt.Sprintf("%s: the genuine head announced again on its own was not merged completely (%d entries missing)", id, missing), History: []string{a.Entry + " " + id}})
+					return
+				}
+				c.Flush()
+			}
+		}
+	}
 	for k, kind := range []string{"junklink", "aliaslink", "junklink-twice"} {
 		id := "fresh:crafted-" + kind
 		if explore.ReplayOnly != nil {
